@@ -1455,6 +1455,21 @@ for _pid in ("C01", "C02", "C08"):
         "code-level tie for matchAllTree.matchAll: translator/treecode.go (AllTreeCode); the bound of the `for cond` loop "
         "(len(path)+1) is part of the translation's configuration — the theorem proves it is never reached, so it is not an assumption; "
         "t.matchNextSegment (inherited from the embedded baseTree) is the model's matchNextIdx on the node's children"]
+PROPS["C04"]["code_modules"] = PROPS["C04"]["code_modules"] + ["Flamego.Props.C04InvokeCode"]
+PROPS["C04"]["technique"] = PROPS["C04"]["technique"] + "; and for injector.callInvoke (the parameters of a handler resolved in order, a missing one → error and no call, else exactly one call with those values): translated on every run and proved in closed form"
+PROPS["C04"]["level_text"] = PROPS["C04"]["level_text"] + (
+    " The invocation too: injector.callInvoke (inject/inject.go), translated on every run into Gen/InjectCode.lean (an index loop over "
+    "the parameter types with a store into the argument slice and an early return; t.In(i) and reflect.ValueOf(f).Call(in) are "
+    "parameters of the generated definitions, nothing is assumed about them), is proved in Props/C04InvokeCode to be: resolve the "
+    "parameter types IN ORDER, each by the translated Value on the injector as the previous resolutions left it; at the first type "
+    "without a value stop, report an error, and the function is NOT called; otherwise call it exactly once with exactly the resolved "
+    "values in parameter order and hand its results back with a nil error (loop_refines, callInvoke_closed, "
+    "code_missing_not_called, code_all_resolved_called_once, resolve_spec). Invoke's type switch, fastInvoke and Apply are not "
+    "translated (reflection on struct fields / interface assertion on the function value): the correspondence ties them.")
+PROPS["C04"]["trusted_base"] = PROPS["C04"]["trusted_base"] + [
+    "code-level tie for callInvoke: reflect.Type.In and reflect.Value.Call are uninterpreted parameters (sigIn, callF); fmt.Errorf "
+    "is a non-nil error (its text, which names the type, is observed by the correspondence); an index out of range in in[i] = val "
+    "is not represented (the loop's indices are below len(in) = numIn by construction, which the proof uses)"]
 _ALL = ['C01', 'C02', 'C03', 'C04', 'C05', 'C06', 'C07', 'C08', 'C09', 'C10', 'C11', 'C12', 'C13', 'C14', 'C15', 'C16', 'C17', 'C18']
 NOT_APPLICABLE = [
     {"property_id": p, "reason": "check not built yet in this revision (work in progress; see DESIGN.md §11 for the plan)"}
